@@ -78,73 +78,7 @@ func runC19(c *core.Ctx, o Options) {
 	if !c.Anchor("root package", root != nil, "simplefixgo", token.NoPos) {
 		return
 	}
-	send := c.Func("", "DefaultHandler.send")
-	if c.Anchor("send path", send != nil, "(*DefaultHandler).send", posOf(send)) {
-		var rAll, rType, toBytes, enq *ssa.Call
-		eff := map[*ssa.Call]an.EffCall{}
-		an.AllInstrs(send, func(in ssa.Instruction) {
-			call, ok := in.(*ssa.Call)
-			if !ok {
-				return
-			}
-			e := an.Effective(call) // a forwarding helper around Range stands for the Range call
-			eff[call] = e
-			switch {
-			case an.CalleeIs(&e.Inner.Call, "simplefix-go", "OutgoingHandlerPool.Range"):
-				if s, ok := an.ConstString(e.Arg(1)); ok && s == "ALL" {
-					rAll = call
-				} else if strings.HasSuffix(an.Render(e.Arg(1)), ".MsgType()") {
-					rType = call
-				}
-			case call.Call.IsInvoke() && call.Call.Method.Name() == "ToBytes":
-				toBytes = call
-			case an.CalleeIs(&call.Call, "simplefix-go", "DefaultHandler.sendRaw"):
-				enq = call
-			}
-		})
-		if c.Anchor("send path steps", rAll != nil && rType != nil && toBytes != nil && enq != nil, "Range(ALL), Range(MsgType()), ToBytes, sendRaw", send.Pos()) {
-			c.Check(an.Dominates(rAll, rType) && an.Dominates(rType, toBytes) && an.Dominates(toBytes, enq), "H1", "DefaultHandler.send", "order: all-types handlers, type handlers, ToBytes, enqueue", send.Pos(),
-				"Range(ALL) → Range(type) → ToBytes → sendRaw", "the steps of the send path are not in the order all-types → type-specific → serialize → enqueue")
-			c.Check(an.Render(enq.Call.Args[1]) == an.Render(toBytes)+"#0", "H1", "DefaultHandler.send", "the bytes enqueued are ToBytes' result", enq.Pos(),
-				"sendRaw(h, ToBytes()#0)", "the enqueued bytes are "+an.Render(enq.Call.Args[1])+", not what ToBytes returned after the handlers ran")
-			// the message passed to handlers and serialized is the parameter
-			msgName := an.Render(send.Params[1])
-			okMsg := an.Render(toBytes.Call.Value) == msgName && strings.HasPrefix(an.Render(eff[rType].Arg(1)), msgName+".")
-			for _, rc := range []*ssa.Call{rAll, rType} {
-				if !handlerCalledWith(eff[rc], ssa.Value(send.Params[1])) {
-					okMsg = false
-				}
-			}
-			c.Check(okMsg, "H1", "DefaultHandler.send", "handlers see the message that is serialized", send.Pos(), "each handler is called as handle(msg) and msg.ToBytes() is what is sent", "a handler is not called with the message being sent (or its result is not what Range sees)")
-			paths, _ := an.EnumPaths(send, 64)
-			var bad []string
-			nEnq := 0
-			for _, p := range paths {
-				if p.Return == nil {
-					continue
-				}
-				if p.Passes(enq) {
-					nEnq++
-					for _, need := range []string{an.Render(rAll), an.Render(rType), an.Render(toBytes) + "#1 == nil"} {
-						if !p.Has(need) {
-							bad = append(bad, "the message is enqueued without "+need+" having succeeded")
-						}
-					}
-					if p.Results[0] != an.Render(enq) {
-						bad = append(bad, "the result of the enqueue is not returned")
-					}
-				} else if p.Results[0] == "nil" {
-					bad = append(bad, "a refusal/serialization failure returns nil: "+p.CondString())
-				}
-			}
-			ob := c.Ob("H1", "DefaultHandler.send", "enqueue only after both handler ranges and ToBytes succeeded; failures return an error", send.Pos())
-			if len(bad) > 0 || nEnq != 1 {
-				ob.Fail("%s", strings.Join(append(bad, fmt.Sprintf("(%d enqueue paths)", nEnq)), "; "))
-			} else {
-				ob.Ok("%d paths, 1 reaches the enqueue", len(paths))
-			}
-		}
-	}
+	checkSendPathOrder(c, "H1")
 	// error propagation up to the public API
 	for _, f := range []struct{ rel, name, callee, what string }{
 		{"", "DefaultHandler.Send", "DefaultHandler.send", "Send returns send's error"},
@@ -558,7 +492,7 @@ func checkPoolGrowOnly(c *core.Ctx, rule string) {
 					np++
 					nonEmpty := false
 					for _, a := range p.Atoms {
-						if strings.HasPrefix(a.L, "len(") && strings.HasSuffix(a.L, ".handlers["+key+"])") || strings.HasPrefix(a.R, "len(") && strings.HasSuffix(a.R, ".handlers["+key+"])") {
+						if strings.HasPrefix(a.L, "len(") && strings.HasSuffix(a.L, ".handlers["+key+"])") || strings.HasPrefix(a.R, "len(") && strings.HasSuffix(a.R, ".handlers["+key+"])") || lenOfPoolEntry(a.Val, isPoolMap, key) {
 							lenTerm := a.L
 							if !strings.HasPrefix(lenTerm, "len(") {
 								lenTerm = a.R
@@ -886,6 +820,103 @@ func flowsStraightTo(b, head *ssa.BasicBlock) bool {
 			return false
 		}
 		b = b.Succs[0]
+	}
+	return false
+}
+
+// checkSendPathOrder (H1): in DefaultHandler.send the enqueue is dominated, in this order, by Range(ALL), Range(type), ToBytes; the
+// bytes enqueued are ToBytes' result and every handler sees the message that is serialized.
+func checkSendPathOrder(c *core.Ctx, rule string) {
+	send := c.Func("", "DefaultHandler.send")
+	if c.Anchor("send path", send != nil, "(*DefaultHandler).send", posOf(send)) {
+		var rAll, rType, toBytes, enq *ssa.Call
+		eff := map[*ssa.Call]an.EffCall{}
+		an.AllInstrs(send, func(in ssa.Instruction) {
+			call, ok := in.(*ssa.Call)
+			if !ok {
+				return
+			}
+			e := an.Effective(call) // a forwarding helper around Range stands for the Range call
+			eff[call] = e
+			switch {
+			case an.CalleeIs(&e.Inner.Call, "simplefix-go", "OutgoingHandlerPool.Range"):
+				if s, ok := an.ConstString(e.Arg(1)); ok && s == "ALL" {
+					rAll = call
+				} else if strings.HasSuffix(an.Render(e.Arg(1)), ".MsgType()") {
+					rType = call
+				}
+			case call.Call.IsInvoke() && call.Call.Method.Name() == "ToBytes":
+				toBytes = call
+			case an.CalleeIs(&call.Call, "simplefix-go", "DefaultHandler.sendRaw"):
+				enq = call
+			}
+		})
+		if c.Anchor("send path steps", rAll != nil && rType != nil && toBytes != nil && enq != nil, "Range(ALL), Range(MsgType()), ToBytes, sendRaw", send.Pos()) {
+			c.Check(an.Dominates(rAll, rType) && an.Dominates(rType, toBytes) && an.Dominates(toBytes, enq), rule, "DefaultHandler.send", "order: all-types handlers, type handlers, ToBytes, enqueue", send.Pos(),
+				"Range(ALL) → Range(type) → ToBytes → sendRaw", "the steps of the send path are not in the order all-types → type-specific → serialize → enqueue")
+			c.Check(an.Render(enq.Call.Args[1]) == an.Render(toBytes)+"#0", rule, "DefaultHandler.send", "the bytes enqueued are ToBytes' result", enq.Pos(),
+				"sendRaw(h, ToBytes()#0)", "the enqueued bytes are "+an.Render(enq.Call.Args[1])+", not what ToBytes returned after the handlers ran")
+			// the message passed to handlers and serialized is the parameter
+			msgName := an.Render(send.Params[1])
+			okMsg := an.Render(toBytes.Call.Value) == msgName && strings.HasPrefix(an.Render(eff[rType].Arg(1)), msgName+".")
+			for _, rc := range []*ssa.Call{rAll, rType} {
+				if !handlerCalledWith(eff[rc], ssa.Value(send.Params[1])) {
+					okMsg = false
+				}
+			}
+			c.Check(okMsg, rule, "DefaultHandler.send", "handlers see the message that is serialized", send.Pos(), "each handler is called as handle(msg) and msg.ToBytes() is what is sent", "a handler is not called with the message being sent (or its result is not what Range sees)")
+			paths, _ := an.EnumPaths(send, 64)
+			var bad []string
+			nEnq := 0
+			for _, p := range paths {
+				if p.Return == nil {
+					continue
+				}
+				if p.Passes(enq) {
+					nEnq++
+					for _, need := range []string{an.Render(rAll), an.Render(rType), an.Render(toBytes) + "#1 == nil"} {
+						if !p.Has(need) {
+							bad = append(bad, "the message is enqueued without "+need+" having succeeded")
+						}
+					}
+					if p.Results[0] != an.Render(enq) {
+						bad = append(bad, "the result of the enqueue is not returned")
+					}
+				} else if p.Results[0] == "nil" {
+					bad = append(bad, "a refusal/serialization failure returns nil: "+p.CondString())
+				}
+			}
+			ob := c.Ob(rule, "DefaultHandler.send", "enqueue only after both handler ranges and ToBytes succeeded; failures return an error", send.Pos())
+			if len(bad) > 0 || nEnq != 1 {
+				ob.Fail("%s", strings.Join(append(bad, fmt.Sprintf("(%d enqueue paths)", nEnq)), "; "))
+			} else {
+				ob.Ok("%d paths, 1 reaches the enqueue", len(paths))
+			}
+		}
+	}
+}
+
+// lenOfPoolEntry: the condition compares len(handlers[key]) — the list read by a plain or a comma-ok lookup — with something.
+func lenOfPoolEntry(v ssa.Value, isPoolMap func(ssa.Value) bool, key string) bool {
+	bo, ok := v.(*ssa.BinOp)
+	if !ok {
+		return false
+	}
+	for _, side := range []ssa.Value{bo.X, bo.Y} {
+		call, ok := side.(*ssa.Call)
+		if !ok {
+			continue
+		}
+		if b, isB := call.Call.Value.(*ssa.Builtin); !isB || b.Name() != "len" || len(call.Call.Args) != 1 {
+			continue
+		}
+		arg := call.Call.Args[0]
+		if ex, isEx := arg.(*ssa.Extract); isEx && ex.Index == 0 {
+			arg = ex.Tuple
+		}
+		if lk, isL := arg.(*ssa.Lookup); isL && isPoolMap(lk.X) && an.Render(lk.Index) == key {
+			return true
+		}
 	}
 	return false
 }
